@@ -231,6 +231,18 @@ func (l *Listener) Close() error {
 		return net.ErrClosed
 	}
 	l.closed = true
+	// connections still in the accept backlog are reset, as a TCP stack does
+	for _, q := range l.q {
+		if c, ok := q.(*Conn); ok {
+			mc.EvWrite(&c.st, "close", 0)
+			mc.EvWrite(&c.out.o, "closehalf", 0)
+			mc.EvWrite(&c.in.o, "closewake", 0)
+			c.localClosed = true
+			c.out.closed = true
+			c.in.rdGone = true
+		}
+	}
+	l.q = nil
 	return nil
 }
 func (l *Listener) Addr() net.Addr { return addr("lis") }
